@@ -11,6 +11,9 @@
 (* the step is taken, so that the driver can report drift.  Closes are       *)
 (* generated only where they can matter (CloseUseful).  Used with            *)
 (* -simulate; each behaviour that reaches Done is printed once.              *)
+(* A collecting close appears as CloseBegin, SweepDir (one per algorithm     *)
+(* directory), CloseEnd, with the calls made while it runs (CopyCall: they   *)
+(* wait for OCIDir.mu, "i:CopyBegin" follows the CloseEnd) in between.       *)
 EXTENDS LayoutGCMC, Json
 VARIABLE hist
 gvars == <<vars, hist>>
@@ -25,6 +28,7 @@ IntStep == \E c \in Copies :
                       \/ CopyFailDrain(c, b) /\ Rec("i:CopyFailDrain", c, b, "")
   \/ CopyEnd(c) /\ Rec("i:CopyEnd", c, "", "")
   \/ CopyFailEnd(c) /\ Rec("i:CopyFailEnd", c, "", "")
+  \/ cst[c] = "call" /\ CopyBegin(c) /\ Rec("i:CopyBegin", c, "", "")     \* GCLock gets the mutex
 
 \* a close is worth a step of the history when the path was modified since the last collection
 \* (it then either collects or is held off by a lock); once every copy has returned the remaining
@@ -32,7 +36,7 @@ IntStep == \E c \in Copies :
 CloseUseful(k) == (modRefs[GcKey(k)].ex /\ modRefs[GcKey(k)].mod) \/ \A c \in Copies : cst[c] \in {"ok", "err"}
 SchedStep ==
   \/ \E c \in Copies :
-       \/ CopyBegin(c) /\ Rec("CopyBegin", c, "", "")
+       \/ cst[c] = "idle" /\ CopyBegin(c) /\ Rec("CopyBegin", c, "", "")
        \/ CopyHeadSame(c) /\ Rec("CopyHeadSame", c, CP(c).root, "")
        \/ CopyAbort(c) /\ Rec("CopyAbort", c, "", "")
        \/ \E n \in Mans : \/ CopyFetch(c, n) /\ Rec("CopyFetch", c, n, "")
@@ -46,8 +50,21 @@ SchedStep ==
   \/ PushBlobBad /\ Rec("PushBlobBad", "", "", "")
   \/ \E p \in conf.pmans : PushManifest(p) /\ Rec("PushManifest", "", p[1], p[2])
 
+\* a close that collects is a sequence of scheduler steps: the driver holds the real Close at the
+\* matching point (a log handler that blocks), makes the calls that fall in between, lets it go on
+CollectStep ==
+  \/ \E k \in conf.ckeys, x \in CtxKinds : CloseUseful(k) /\ CloseBegin(k, x) /\ Rec("CloseBegin", "", k, x)
+  \/ SweepDir /\ Rec("SweepDir", "", NextDir, "")
+  \/ CloseEnd /\ Rec("CloseEnd", "", "", "")
+CallStep == \E c \in Copies : CopyCall(c) /\ Rec("CopyCall", c, "", "") /\ gcr' = gcr
+
 GInit == Init /\ hist = <<>>
-GNext == ~Done /\ IF AnyInternal THEN IntStep ELSE SchedStep
+GNext == /\ ~Done
+         /\ IF AnyInternal THEN IntStep /\ gcr' = gcr
+            ELSE \/ MutexFree /\ SchedStep /\ gcr' = gcr
+                 \/ CollectStep
+                 \/ CallStep
+         /\ DirsNext
 GSpec == GInit /\ [][GNext]_gvars
 
 Emit == Done => PrintT(<<"SCN", ToJson([conf |-> conf, steps |-> hist, fin |-> [f |-> files, x |-> idx]])>>)
